@@ -165,7 +165,7 @@ class Compositions(Facet):
         return st.builds(
             lambda step, size, dk, form, seed, rep: {"step": step, "size": size, "k": max(1, size - dk), "form": form, "seed": seed, "rep": rep},
             step_strategy(),
-            st.one_of(st.integers(2, 12), st.integers(2, 40)),
+            st.one_of(st.integers(2, 12), st.integers(2, 40 if tier == "quick" else 150)),
             st.sampled_from([0, 0, 0, 1, 2, 5]),
             st.sampled_from(["list", "list", "population", "iterator", "generator"]),
             st.integers(0, 2**31),
@@ -321,7 +321,7 @@ class GPRuns(Facet):
     def strategy(self, tier):
         from vk.props.c14 import gp_steps
 
-        return st.integers(2, 14).flatmap(
+        return st.one_of(st.integers(2, 14), st.integers(2, 14 if tier == "quick" else 120)).flatmap(
             lambda pop: st.builds(
                 lambda step, gens, seed, rep: {"popsize": pop, "step": step, "gens": gens, "seed": seed, "rep": rep},
                 st.one_of(gp_steps(pop), gp_steps(pop), step_strategy()),
